@@ -56,13 +56,21 @@ pub struct World {
     pub doms: Vec<Option<WeakDom>>,
     pub refs: Vec<Ref>,
     pub refmap: HashMap<Ref, usize>,
-    pub tokens: HashMap<UniqueId, i64>,
+    pub tokens: HashMap<UidKey, i64>,
     pub next_fresh_token: i64,
     pub root_label_override: bool,
 }
 
+/// The id a token stands for.  Every third token shares one NEGATIVE random part with its kind (they differ in index
+/// and time only), the others have distinct positive ones: ids are equal only if all three parts are.
 fn uid_of_token(t: i64) -> UniqueId {
-    UniqueId::new(t as u32, 1000 + t as u32, t * 7919 + 1)
+    UniqueId::new(t as u32, 1000 + t as u32, if t % 3 == 0 { -5 } else { t * 7919 + 1 })
+}
+
+/// key of the token table: the three parts as the accessors give them (not UniqueId's own Eq / Hash)
+type UidKey = (u32, u32, i64);
+fn uid_key(id: &UniqueId) -> UidKey {
+    (id.index(), id.time(), id.random())
 }
 
 impl World {
@@ -110,12 +118,12 @@ impl World {
     }
 
     fn token(&mut self, id: UniqueId) -> i64 {
-        if let Some(t) = self.tokens.get(&id) {
+        if let Some(t) = self.tokens.get(&uid_key(&id)) {
             return *t;
         }
         let t = self.next_fresh_token;
         self.next_fresh_token += 1;
-        self.tokens.insert(id, t);
+        self.tokens.insert(uid_key(&id), t);
         t
     }
 
@@ -190,7 +198,7 @@ impl World {
             let u = node["uid"].as_i64().unwrap();
             if u != 0 {
                 let id = uid_of_token(u);
-                self.tokens.insert(id, u);
+                self.tokens.insert(uid_key(&id), u);
                 ib.add_property("UniqueId", Variant::UniqueId(id));
             }
             // a UniqueId-typed value under another name (Instance.HistoryId is one) equal to an id some builder
@@ -884,7 +892,7 @@ pub fn drive(seed: u64, episodes: usize, steps: usize, max_ref: usize, num_slots
         let ep = format!("drive:{}:{}", seed, epi);
         let mut w = World::new(max_ref, num_slots);
         emit(out, &ep, json!({"op": "reset"}));
-        let uid_pool = [0, 2, 4][rng.gen_range(0..3)];
+        let uid_pool = [0, 2, 4, 7][rng.gen_range(0..4)];     // 7: tokens 3 and 6 share their (negative) random part
         let mut lab = 1;
         for d in 1..=NUM_DOMS {
             // every fourth episode the second DOM is WeakDom::default(): no root, filled by clones, transfers
@@ -953,12 +961,12 @@ pub fn drive_decoded(seed: u64, episodes: usize, steps: usize, max_ref: usize, o
             );
             refs.push(r);
         }
-        let mut tokens: HashMap<UniqueId, i64> = HashMap::new();
+        let mut tokens: HashMap<UidKey, i64> = HashMap::new();
         for r in refs.iter().skip(1) {
             if rng.gen_bool(0.8) {
-                let t = rng.gen_range(1..=3);
+                let t = [1, 2, 3, 6][rng.gen_range(0..4)];
                 let id = uid_of_token(t);
-                tokens.insert(id, t);
+                tokens.insert(uid_key(&id), t);
                 // direct property write: bypasses the bookkeeping on purpose, so the file holds duplicates
                 src.get_by_ref_mut(*r).unwrap().properties.insert("UniqueId".into(), Variant::UniqueId(id));
             }
